@@ -1,0 +1,75 @@
+//go:build verif
+
+package types
+
+// Contracts for the verification machinery in /verif. This file holds comments only and is compiled
+// only with the build tag `verif`; it changes nothing in a normal build.
+// Grammar: /verif/DESIGN.md section 3. Every clause carries the ids of the properties it serves.
+
+// ---------------------------------------------------------------------------------------------
+// C05: access-mode algebra
+// ---------------------------------------------------------------------------------------------
+
+//@ spec func bitOf(c byte) AccessMode {
+//@   return (c == 'J' || c == 'j') ? ModeJoin : (c == 'R' || c == 'r') ? ModeRead : (c == 'W' || c == 'w') ? ModeWrite :
+//@          (c == 'P' || c == 'p') ? ModePres : (c == 'A' || c == 'a') ? ModeApprove : (c == 'S' || c == 's') ? ModeShare :
+//@          (c == 'D' || c == 'd') ? ModeDelete : (c == 'O' || c == 'o') ? ModeOwner : ModeNone }
+//@ spec func isN(c byte) bool { return c == 'N' || c == 'n' }
+
+// every character of s is a mode letter whose bit is in m
+//@ spec func onlyLettersOf(s []byte, m AccessMode) bool {
+//@   return forall i int :: 0 <= i && i < len(s) ==> bitOf(s[i]) != 0 && (m & bitOf(s[i])) != 0 }
+//@ spec func hasLetter(s []byte, k AccessMode) bool { return exists i int :: 0 <= i && i < len(s) && bitOf(s[i]) == k }
+// every permission bit of m is spelled by some character of s
+//@ spec func allLettersOf(s []byte, m AccessMode) bool {
+//@   return ((m & ModeJoin) != 0 ==> hasLetter(s, ModeJoin)) && ((m & ModeRead) != 0 ==> hasLetter(s, ModeRead)) &&
+//@          ((m & ModeWrite) != 0 ==> hasLetter(s, ModeWrite)) && ((m & ModePres) != 0 ==> hasLetter(s, ModePres)) &&
+//@          ((m & ModeApprove) != 0 ==> hasLetter(s, ModeApprove)) && ((m & ModeShare) != 0 ==> hasLetter(s, ModeShare)) &&
+//@          ((m & ModeDelete) != 0 ==> hasLetter(s, ModeDelete)) && ((m & ModeOwner) != 0 ==> hasLetter(s, ModeOwner)) }
+// s is a spelling of exactly the permission set m (m within the 8 permission bits)
+//@ spec func spells(s []byte, m AccessMode) bool { return onlyLettersOf(s, m) && allLettersOf(s, m) }
+//@ spec func allLetters(s []byte) bool { return forall i int :: 0 <= i && i < len(s) ==> bitOf(s[i]) != 0 }
+
+//@ func (m AccessMode) MarshalText() (res []byte, err error)
+//@   ensures [C05] none:    m == ModeNone ==> err == nil && len(res) == 1 && res[0] == 'N'
+//@   ensures [C05] invalid: m == ModeInvalid ==> err != nil
+//@   ensures [C05] letters: m != ModeNone && m != ModeInvalid ==> err == nil && spells(res, m & ModeBitmask)
+//@   ensures [C05] upper:   err == nil ==> forall i int :: 0 <= i && i < len(res) ==> 'A' <= res[i] && res[i] <= 'Z'
+//@   ensures [C05] short:   len(res) <= 8
+//@   ensures [C05] nonempty: err == nil && (m & ModeBitmask) != 0 ==> len(res) > 0
+//@   loop 1
+//@     invariant idx:   0 <= #idx && #idx <= 8 && len(res) <= #idx
+//@     invariant only:  forall k int :: 0 <= k && k < len(res) ==> bitOf(res[k]) != 0 && (m & bitOf(res[k])) != 0 && 'A' <= res[k] && res[k] <= 'Z'
+//@     invariant all:   allLettersOf(res, m & ModeBitmask & ((AccessMode(1) << #idx) - 1))
+
+//@ func ParseAcs(b []byte) (m AccessMode, err error)
+//@   ensures [C05] empty:   len(b) == 0 ==> err == nil && m == ModeUnset
+//@   ensures [C05] onerr:   err != nil ==> m == ModeUnset
+//@   ensures [C05] reject:  (exists i int :: 0 <= i && i < len(b) && bitOf(b[i]) == 0 && !isN(b[i])) ==> err != nil
+//@   ensures [C05] bits:    err == nil && allLetters(b) ==> (m & ModeUnset) != 0 && (m &^ (ModeBitmask | ModeUnset)) == 0 && spells(b, m & ModeBitmask)
+//@   ensures [C05] none:    err == nil && len(b) > 0 && isN(b[0]) ==> m == ModeNone
+//@   ensures [C05] shape:   err == nil ==> m == ModeNone || ((m & ModeUnset) != 0 && allLetters(b))
+//@   loop 1
+//@     invariant bounds: 0 <= i && i <= len(b)
+//@     invariant fresh:  i == 0 ==> m0 == ModeUnset
+//@     invariant shape:  (m0 & ModeUnset) != 0 && (m0 &^ (ModeBitmask | ModeUnset)) == 0
+//@     invariant seen:   forall j int :: 0 <= j && j < i ==> bitOf(b[j]) != 0 && (m0 & bitOf(b[j])) != 0
+//@     invariant only:   allLettersOf(b[:i], m0 & ModeBitmask)
+
+//@ func (m *AccessMode) UnmarshalText(b []byte) (err error)
+//@   modifies *m
+//@   ensures [C05] unchanged: (err != nil || len(b) == 0) ==> *m == old(*m)
+//@   ensures [C05] reject:    (exists i int :: 0 <= i && i < len(b) && bitOf(b[i]) == 0 && !isN(b[i])) ==> err != nil
+//@   ensures [C05] assigned:  err == nil && len(b) > 0 && allLetters(b) ==> (*m &^ ModeBitmask) == 0 && spells(b, *m)
+//@   ensures [C05] none:      err == nil && len(b) > 0 && isN(b[0]) ==> *m == ModeNone
+//@   ensures [C05] masked:    err == nil && len(b) > 0 ==> (*m &^ ModeBitmask) == 0
+
+// the canonical text of a permission set parses back to the same set
+//@ lemma [C05] canonical_roundtrip: forall s []byte, m AccessMode, p AccessMode ::
+//@     (m &^ ModeBitmask) == 0 && spells(s, m) && (p &^ ModeBitmask) == 0 && spells(s, p) ==> p == m
+
+//@ func (grant AccessMode) BetterThan(want AccessMode) (res bool)
+//@   ensures [C05] def: res <==> (grant & ModeBitmask &^ want) != 0
+
+//@ func (grant AccessMode) BetterEqual(want AccessMode) (res bool)
+//@   ensures [C05] def: res <==> (grant & want & ModeBitmask) == want
